@@ -177,8 +177,9 @@ class ArrayLookup(Assignable):
 
     @property
     def const(self):
+        # Strings are immutable, like const byte[]
         if self.source.type == DataType.STRING:
-            return False
+            return True
         return self.source.type.const
 
     def evaluate(self, env):
